@@ -282,7 +282,7 @@ func (m *immutableMap) Hash() uint64 {
 // Interface converts the Map to an any.
 func (m *immutableMap) Interface() any {
 	if len(m.value) == 0 {
-		return nil
+		return map[string]any{}
 	}
 
 	var keyType reflect.Type
